@@ -6,6 +6,8 @@ chunked coding, cut into pieces at enumerated offsets, with or without Expect: 1
 or abandoned by the client at an enumerated offset.  The oracle is a strict, independent HTTP/1.x
 request parser run over the bytes the origin socket received.
 """
+import time
+
 from vverif import bodyrelay as br
 from vverif import httpref
 from vverif import lockstep as ls
@@ -133,12 +135,27 @@ def all_cases(ctx):
                 for seg in ('bytes-first', 'bytes-body-first', 'bytes-last'):
                     add('bigsplit', seg=seg, **base)
                 add('bigsplit', seg=sorted(set(br.cuts_around(total, bnd + [hl + x for x in bnd], 0))), **base)
+    # F5 sloworigin: Squid's own socket buffers are small (tcp_recv_bufsize), so is the origin's receive buffer, and the
+    # origin does not read until everything has come to a standstill: the body has to wait in Squid's BodyPipe / input buffer
+    slow_sizes = [k['read_ahead_gap'] + 1, 2 * k['read_ahead_gap'] + 1, 65537] + ([2 * 65536 + 1, k['client_request_buffer_max_size'] + 1, (1 << 20) + 1] if T else [])
+    for m in ('POST', 'PUT'):
+        for fr, ck in FR_BIG:
+            for size in slow_sizes:
+                for exp in ('none', 'nowait'):
+                    for comp in ('full', 'half'):
+                        for drain in ('stall', 'sip'):
+                            if drain == 'sip' and size > 2 * 65536 + 1:
+                                continue
+                            if m == 'PUT' and (exp != 'none' or not T):
+                                continue
+                            add('sloworigin', m=m, fr=fr, ck=ck, size=size, exp=exp, cut=comp, drain=drain)
     return cases
 
 
 def describe(c):
     return '%s %s %s/%s size=%d ver=%s expect=%s cut=%s end=%s seg=%s' % (
-        c['fam'], c['m'], c['fr'], c['ck'], c['size'], c['ver'], c['exp'], c['cut'], c['end'], c['seg'])
+        c['fam'], c['m'], c['fr'], c['ck'], c['size'], c['ver'], c['exp'], c['cut'], c['end'], c['seg']) + (
+        (' drain=' + c['drain']) if c.get('drain') else '')
 
 
 def key_of(c):
@@ -174,12 +191,17 @@ def upstream_state(raw, cache):
     return httpref.parse_request(raw)
 
 
-def transact(w, case, pieces, head_len, then, max_rounds=600):
+def transact(w, case, pieces, head_len, then, max_rounds=3000):
     """Client sends `pieces` (one per driver round; in Expect-wait mode the body pieces only after a 100 arrived), then
     performs `then` (None | 'close' | 'rst').  The origin sends 100 Continue when it has a request head that asks for it
-    and the final response when it has a complete request."""
+    and the final response when it has a complete request.  case['drain'] = 'stall': the origin (small receive buffer)
+    reads nothing until everything else has come to a standstill, then drains; 'sip': ... then reads 1 KB per round."""
     sq = w.sq
     t = Tx()
+    slow = case.get('drain')
+    draining = not slow
+    grace = 0
+    t.unread_at_standstill = None
     c = sq.client()
     wait100 = case['exp'] == 'wait'
     head_pieces, body_pieces, acc = [], [], 0
@@ -206,7 +228,7 @@ def transact(w, case, pieces, head_len, then, max_rounds=600):
             oc = o['c']
             if oc.closed:
                 continue
-            if oc.pump():
+            if draining and (br.sip(oc, 1024) if slow == 'sip' else oc.pump()):
                 progressed = True
                 o['raw'] += oc.take()
             if oc.eof:
@@ -240,11 +262,24 @@ def transact(w, case, pieces, head_len, then, max_rounds=600):
             if (r.complete and not r.error and r.framing != 'close') or c.eof:
                 if not progressed:
                     break
+        if c.closed and oconns and all(o['eof'] for o in oconns) and not progressed:
+            break                    # client gone and Squid has closed every upstream connection
+        if not draining and not progressed:
+            draining = True          # standstill: the client is done or blocked and Squid is idle -> origin starts reading
+            t.unread_at_standstill = sum(br.unread_bytes(o['c']) for o in oconns if not o['c'].closed)
+            progressed = True
         if progressed:
             idle = 0
         else:
             idle += 1
             if idle >= 3:
+                if grace < 2 and (slow or then is None):
+                    # kernel TCP timers (delayed ACK / window update, ~40 ms) run in real time: before declaring a
+                    # standstill in a transaction that is expected to complete, give them a chance to fire
+                    grace += 1
+                    idle = 0
+                    time.sleep(0.06)
+                    continue
                 t.stalled = feeding
                 break
     t.client_bytes = c.inbuf
@@ -359,6 +394,9 @@ def run_case(w, case):
     if cut is None and violation is None and not t.body_withheld:
         if not (r.complete and not r.error and r.status == 200 and r.body == b'ok'):
             violation = 'the origin answered 200 "ok" to the complete request but the client got %r' % t.client_bytes[:200]
+    if case.get('drain'):
+        got = sum(len(o['raw']) for o in t.oconns)
+        cls += ' [held-in-squid]' if t.unread_at_standstill is not None and t.unread_at_standstill < got else ' [not-held]'
     outcome = cls + ('' if case['exp'] == 'none' else (' 100=%s' % ('relayed' if t.got100 else ('sent-not-relayed' if t.sent100 else 'not-sent'))))
     tr = 'O:%s body=%d:%s\nC:%s' % (
         ' || '.join(br.mask_head(o['raw'][:o['raw'].find(b'\r\n\r\n') + 4 if b'\r\n\r\n' in o['raw'] else len(o['raw'])]) for o in t.oconns),
@@ -369,6 +407,18 @@ def run_case(w, case):
 
 def make_world(ctx, shard):
     return ls.World(ctx, 'w%d' % shard, ls.port_base_for_check(ctx.pid, shard), conf=CONF)
+
+
+def make_world_small(ctx, shard):
+    """Same, but Squid's TCP socket buffers are 4 KB (tcp_recv_bufsize sets both directions) and so is the origin's
+    receive buffer: an origin that does not read blocks Squid's upstream writes after a few KB."""
+    w = ls.World(ctx, 's%d' % shard, ls.port_base_for_check(ctx.pid, shard), conf=CONF + br.SMALLBUF_CONF)
+    br.shrink_listener(w.origin)
+    return w
+
+
+def world_maker(case):
+    return make_world_small if case['fam'] == 'sloworigin' else make_world
 
 
 ASSUME = ['the real squid binary (ASan build of the current tree) runs under the lock-step/virtual-time shim; client and origin are played by the driver',
@@ -393,13 +443,18 @@ def build(ctx):
 def run(ctx):
     build(ctx)
     cases = all_cases(ctx)
-    r = ls.run_cases(ctx, cases, run_case, make_world, key_of=key_of, determinism_n=10)
+    r = ls.run_cases(ctx, [c for c in cases if c['fam'] != 'sloworigin'], run_case, make_world, key_of=key_of, determinism_n=10)
+    r2 = ls.run_cases(ctx, [c for c in cases if c['fam'] == 'sloworigin'], run_case, make_world_small, key_of=key_of, determinism_n=3)
+    r = br.merge_results(r, r2)
     oc = r['outcomes']
     complete = sum(v for k, v in oc.items() if ':complete' in k)
     truncated = sum(v for k, v in oc.items() if ':truncated+close' in k)
     relayed100 = sum(v for k, v in oc.items() if '100=relayed' in k)
     forwarded = sum(v for k, v in oc.items() if '>' in k.split(':')[0])
+    held = sum(v for k, v in oc.items() if '[held-in-squid]' in k)
     done = r['evaluations'] == len(cases) and not r['deadline_hit']
+    if not r['violations'] and done and held < 20:
+        raise HarnessError('vacuity guard: only %d slow-origin cases made the body wait inside Squid: %r' % (held, oc))
     if not r['violations'] and done:
         if complete < len(cases) // 3 or truncated < 20 or relayed100 < 20:
             raise HarnessError('vacuity guard: complete=%d truncated+close=%d 100-relayed=%d of %d cases: %r' % (complete, truncated, relayed100, len(cases), oc))
@@ -412,13 +467,13 @@ def run(ctx):
     cov = {'evaluations': r['evaluations'], 'distinct_nontrivial': forwarded, 'rule': RULE, 'samples': samples,
            'outcome_classes': oc, 'exhaustive': done, 'kicks': r['kicks'], 'determinism_replays': r['replays'],
            'cases_total': len(cases), 'cases_per_family': fams, 'complete_relays': complete, 'visible_truncations': truncated,
-           'continue_relayed': relayed100, 'sizes_B': sizes_B(ctx)}
+           'continue_relayed': relayed100, 'slow_origin_bodies_held_in_squid': held, 'sizes_B': sizes_B(ctx)}
     return Result(LEVEL, cov, vio, ASSUME)
 
 
 def replay(ctx, data):
     build(ctx)
-    w = make_world(ctx, 0)
+    w = world_maker(data['case'])(ctx, 0)
     w.start()
     try:
         r = run_case(w, data['case'])
